@@ -167,6 +167,13 @@ def run(cfg, V):
                         bad.append(("format/parse", n, p, q, str(fv), str(back)))
                 except Exception as e:  # noqa
                     bad.append(("format/parse", n, p, q, type(e).__name__))
+    for text, want in (("5 3/4", 5.75), ("2 1/2", 2.5), ("3/8", 0.375), ("7", 7.0)):
+        first = FractionValue.CreateFromString(text, consider_locale=False)
+        first.SetNumber(first.GetNumber() + 1)  # the caller edits the value it got ...
+        first.fraction.numerator = 1
+        again = FractionValue.CreateFromString(text, consider_locale=False)  # ... which must not change what the same text parses to
+        if float(again) != want or again is first:
+            bad.append(("parse-edit-parse", text, float(again)))
     vals = [j / 8 for j in range(-40, 41)] + [j / 10 for j in range(-30, 31)] + [0.375, 1.3125, 2.0625, 100.5, 0.001, 123.456, 0.333, 0.47]
     for v in vals:
         try:
